@@ -58,6 +58,8 @@ pub enum Op {
     RemoveMissing { n: usize },
     // injected I/O error on the next growing operation (fault configuration)
     FailSetLen { on_regions: bool },
+    /// the metadata file's next sync inside a database-wide flush / compact fails with EIO
+    FailRegionsSync,
 }
 
 impl Op {
@@ -82,6 +84,7 @@ impl Op {
             Op::RemoveHeld { .. } => "remove_held",
             Op::RemoveMissing { .. } => "remove_missing",
             Op::FailSetLen { .. } => "fail_set_len",
+            Op::FailRegionsSync => "fail_regions_sync",
         }
     }
 
@@ -123,6 +126,7 @@ impl Op {
             Op::RemoveHeld { n } => json!({"op":"remove_held","n":n}),
             Op::RemoveMissing { n } => json!({"op":"remove_missing","n":n}),
             Op::FailSetLen { on_regions } => json!({"op":"fail_set_len","on_regions":on_regions}),
+            Op::FailRegionsSync => json!({"op":"fail_regions_sync"}),
         }
     }
 
@@ -150,6 +154,7 @@ impl Op {
             "remove_held" => Op::RemoveHeld { n },
             "remove_missing" => Op::RemoveMissing { n },
             "fail_set_len" => Op::FailSetLen { on_regions: v["on_regions"].as_bool().unwrap_or(false) },
+            "fail_regions_sync" => Op::FailRegionsSync,
             _ => return None,
         })
     }
@@ -166,13 +171,15 @@ pub struct Cfg {
     pub initial_min_len: usize,
     pub max_ops: usize,
     pub big_writes: bool,
+    /// inject EIO into the metadata file's sync of a database-wide flush / compact
+    pub sync_faults: bool,
 }
 
 impl Cfg {
     pub fn to_json(&self) -> Value {
         json!({"property": self.property, "refused": self.refused, "io_faults": self.io_faults,
                "retain_single": self.retain_single, "initial_min_len": self.initial_min_len,
-               "max_ops": self.max_ops, "big_writes": self.big_writes})
+               "max_ops": self.max_ops, "big_writes": self.big_writes, "sync_faults": self.sync_faults})
     }
     pub fn from_json(v: &Value) -> Cfg {
         Cfg {
@@ -183,6 +190,7 @@ impl Cfg {
             initial_min_len: us(v, "initial_min_len"),
             max_ops: us(v, "max_ops"),
             big_writes: v["big_writes"].as_bool().unwrap_or(true),
+            sync_faults: v["sync_faults"].as_bool().unwrap_or(false),
         }
     }
 }
@@ -212,7 +220,7 @@ pub fn gen_history(rng: &mut Rng, cfg: &Cfg) -> Vec<Op> {
     let w_reopen = rng.range(0, 3);
     let w_minreg = rng.range(0, 1);
     let w_refused = if cfg.refused { rng.range(3, 8) } else { 0 };
-    let w_fault = if cfg.io_faults { rng.range(2, 6) } else { 0 };
+    let w_fault = if cfg.io_faults { rng.range(2, 6) } else if cfg.sync_faults { rng.range(1, 3) } else { 0 };
     let weights = [
         w_create, w_append, w_write_at, w_trunc, w_tw, w_rename, w_remove, w_retain, w_flushr,
         w_flush, w_compact, w_reopen, w_minreg, w_refused, w_fault,
@@ -263,6 +271,7 @@ pub fn gen_history(rng: &mut Rng, cfg: &Cfg) -> Vec<Op> {
                 3 => Op::RemoveHeld { n },
                 _ => Op::RemoveMissing { n },
             },
+            _ if cfg.sync_faults => Op::FailRegionsSync,
             _ => Op::FailSetLen { on_regions: rng.chance(1, 4) },
         };
         ops.push(op);
@@ -538,6 +547,7 @@ pub struct Exec<'a> {
     pub rec: Option<&'a mut Recorder>,
     pub refused_seen: bool,
     arm_next: Option<bool>,
+    arm_sync: bool,
     step: usize,
     total_bytes: usize,
 }
@@ -563,6 +573,7 @@ impl<'a> Exec<'a> {
             rec,
             refused_seen: false,
             arm_next: None,
+            arm_sync: false,
             step: 0,
             total_bytes: 0,
         })
@@ -773,6 +784,12 @@ impl<'a> Exec<'a> {
             let file = if on_regions { rawdb::verif::FileKind::Regions } else { rawdb::verif::FileKind::Data };
             g.faults.fail.push((rawdb::verif::IoKind::SetLen, file, 0, libc::ENOSPC));
         }
+        if matches!(op, Op::Flush | Op::Compact) && std::mem::take(&mut self.arm_sync) {
+            let mut g = HUB.lock();
+            g.faults.fail.clear();
+            g.faults.seen.clear();
+            g.faults.fail.push((rawdb::verif::IoKind::Sync, rawdb::verif::FileKind::Regions, 0, libc::EIO));
+        }
         let fired_before = HUB.lock().faults.fired;
         let r = self.apply_inner(op, touches, overwrote, flushed_region, completed);
         {
@@ -965,7 +982,16 @@ impl<'a> Exec<'a> {
                 }
             }
             Op::Flush => {
-                self.db().flush().map_err(|e| format!("flush failed: {e}"))?;
+                let fired_before = HUB.lock().faults.fired;
+                if let Err(e) = self.db().flush() {
+                    if HUB.lock().faults.fired > fired_before {
+                        // the injected EIO: the flush did not complete, nothing else may have changed
+                        *completed = false;
+                        self.stats.bump("fault.regions_sync_error_fired");
+                    } else {
+                        return Err(format!("flush failed: {e}"));
+                    }
+                }
             }
             Op::Compact => {
                 let pre: Vec<(String, usize, usize)> = {
@@ -975,7 +1001,15 @@ impl<'a> Exec<'a> {
                 let real_len_before = self.db().file().metadata().map(|m| m.len()).unwrap_or(0);
                 let cached_before = self.db().file_len();
                 let usage_before = self.db().disk_usage().ok();
-                self.db().compact().map_err(|e| format!("compact failed: {e}"))?;
+                let fired_before = HUB.lock().faults.fired;
+                if let Err(e) = self.db().compact() {
+                    if HUB.lock().faults.fired > fired_before {
+                        *completed = false;
+                        self.stats.bump("fault.regions_sync_error_fired");
+                    } else {
+                        return Err(format!("compact failed: {e}"));
+                    }
+                }
                 let post: Vec<(String, usize, usize)> = {
                     let v = layout_view(self.db());
                     v.regions.iter().map(|(s, x)| (x.3.clone(), *s, x.1)).collect()
@@ -1079,6 +1113,9 @@ impl<'a> Exec<'a> {
             }
             Op::FailSetLen { on_regions } => {
                 self.arm_next = Some(*on_regions);
+            }
+            Op::FailRegionsSync => {
+                self.arm_sync = true;
             }
         }
         Ok(())
@@ -1203,6 +1240,7 @@ impl W1Check {
                 Tier::Thorough => 60,
             },
             big_writes: true,
+            sync_faults: false,
         }
     }
 }
@@ -1259,6 +1297,7 @@ impl Check for W1Check {
             initial_min_len: 0,
             max_ops: 60,
             big_writes: true,
+            sync_faults: false,
         };
         vec![json!({"world":"w1","cfg":cfg.to_json(),"ops":ops.iter().map(Op::to_json).collect::<Vec<_>>()})]
     }
